@@ -229,6 +229,12 @@ func tpMenu() []tpGen {
 		id := id
 		m = append(m, tpGen{fmt.Sprintf("fake(id=%d)", id), func() tls.TransportParameter { return &tls.FakeQUICTransportParameter{Id: id, Val: []byte{0xaa, 0xbb}} }, id, func() []byte { return []byte{0xaa, 0xbb} }})
 	}
+	for _, n := range []int{63, 16383, 16384, 20000} { // value lengths around the 1/2/4-byte varint boundaries of the length prefix
+		n := n
+		m = append(m, tpGen{fmt.Sprintf("fake(%dB value)", n), func() tls.TransportParameter { return &tls.FakeQUICTransportParameter{Id: 0x9a, Val: rep(3, n)} }, 0x9a, func() []byte { return rep(3, n) }})
+	}
+	m = append(m, tpGen{"padding=16384", func() tls.TransportParameter { return tls.PaddingTransportParameter(rep(0, 16384)) }, 0x15, func() []byte { return rep(0, 16384) }},
+		tpGen{"grease(len 16384)", func() tls.TransportParameter { return &tls.GREASETransportParameter{Length: 16384} }, 0, nil})
 	m = append(m, tpGen{"fake(64B value)", func() tls.TransportParameter { return &tls.FakeQUICTransportParameter{Id: 0x99, Val: rep(9, 64)} }, 0x99, func() []byte { return rep(9, 64) }})
 	return m
 }
@@ -295,8 +301,12 @@ func c24Params(maxLen int) *explore.Scenario {
 				if g.val != nil && !bytes.Equal(tp.Value, g.val()) {
 					r.Violate("C24|params|value", "list %v: entry %d (%s) value % x, want % x", names, i, g.name, tp.Value, g.val())
 				}
-				if g.val == nil && len(tp.Value) != 5 {
-					r.Violate("C24|params|grease-len", "list %v: entry %d GREASE value of %d bytes, want 5", names, i, len(tp.Value))
+				wantLen := 5
+				if g.name == "grease(len 16384)" {
+					wantLen = 16384
+				}
+				if g.val == nil && len(tp.Value) != wantLen {
+					r.Violate("C24|params|grease-len", "list %v: entry %d GREASE value of %d bytes, want %d", names, i, len(tp.Value), wantLen)
 				}
 				ref = append(ref, refVarint(tp.ID)...)
 				ref = append(ref, refVarint(uint64(len(tp.Value)))...)
@@ -327,7 +337,7 @@ func c24Scenarios(thorough bool) []*explore.Scenario {
 func init() {
 	register(&Prop{ID: "C24", Level: "exploration", Variant: "A", Scenarios: c24Scenarios,
 		Run: func(c *explore.Check, thorough bool) {
-			c.Rule = "varints: every x in [0,2^20], 2^k+d (k<=64,|d|<=2), every single non-zero byte pattern (thorough: pairs of byte patterns) x widths {1,2,4,8 and invalid 0,3,16} against an independent RFC 9000 codec (minimal Append, Len, Read inverse, AppendWithLen exact width, panic instead of truncation); parameter lists: every ordered list of length <=2 (3 thorough) over a menu of every parameter type with boundary values, parsed by an independent parser and compared entry by entry and byte by byte with the minimal reference encoding. distinct = parameter list"
+			c.Rule = "varints: every x in [0,2^20], 2^k+d (k<=64,|d|<=2), every single non-zero byte pattern (thorough: pairs of byte patterns) x widths {1,2,4,8 and invalid 0,3,16} against an independent RFC 9000 codec (minimal Append, Len, Read inverse, AppendWithLen exact width, panic instead of truncation); parameter lists: every ordered list of length <=2 (3 thorough) over a menu of every parameter type with boundary values (integer values and ids at every varint width; value lengths 0..64, 16383, 16384, 20000), parsed by an independent parser and compared entry by entry and byte by byte with the minimal reference encoding. distinct = parameter list"
 			c.Assumptions = []string{"62-bit value space is covered at [0,2^20], all powers of two +-2 and byte patterns, not symbolically", "GREASE parameter entropy scripted through crypto/rand.Reader"}
 			runAll(c, c24Scenarios(thorough), 0)
 			c.Extra["function_evaluations"] = c.Total.Counters["function_evaluations"]
